@@ -214,6 +214,13 @@ func newWorld(s *simkit.Sim, sc *Scenario) (*World, error) {
 		w.dumper = mvcc
 	case "R":
 		srv := refkv.NewServer(cluster)
+		for _, t := range sc.Txns {
+			srv.FollowerReads = srv.FollowerReads || t.Replica != ""
+		}
+		if sc.Reads != nil {
+			srv.FollowerReads = srv.FollowerReads || sc.Reads.Replica != "" || sc.Reads.Stale
+			srv.NotReadyEvery = sc.Reads.NotReadyEvery
+		}
 		w.backend = srv
 		w.dumper = srv
 		w.ref = srv
@@ -349,6 +356,10 @@ func (w *World) runTxn(p *TxnProg, h *TxnHist) {
 	}
 	if w.sc.Knobs.ScanBatch > 0 {
 		txn.GetSnapshot().SetScanBatchSize(w.sc.Knobs.ScanBatch)
+	}
+	if rt, ok := replicaType(p.Replica); ok {
+		txn.GetSnapshot().SetReplicaRead(rt)
+		w.Sim.Count("probe.replica-read.txn." + p.Replica)
 	}
 	h.Buf = map[string]*string{}
 	h.Inserted = map[string]bool{}
@@ -930,6 +941,14 @@ func (w *World) runReads(r *rand.Rand, cl int, phase string, n int, plan *ReadPl
 			snap.SetScanBatchSize(batch)
 		}
 		snap.SetKeyOnly(plan.KeyOnly)
+		if rt, ok := replicaType(plan.Replica); ok {
+			snap.SetReplicaRead(rt)
+			w.Sim.Count("probe.replica-read.snapshot." + plan.Replica)
+		}
+		if plan.Stale {
+			snap.SetIsStalenessReadOnly(true)
+			w.Sim.Count("probe.replica-read.snapshot.stale")
+		}
 		// a few reads on the same snapshot object: cold then warm cache, different paths
 		reps := 2 + r.Intn(4)
 		forward := r.Intn(3) == 0 // read, let time pass, move the SAME snapshot object forward to a fresh timestamp, read again
